@@ -22,7 +22,7 @@ def rows(rnd):
             clause=mm.group(1)+' / '+mm.group(2)
         extra=''
         if m.get('initially_missed'): extra=' — **missed at first**; '+m['strengthening']
-        if m.get('origin'): extra=' — '+m['origin']
+        if m.get('origin'): extra=(' — **missed at first**; ' if m['origin'].startswith('NOT ADOPTED') else ' — ')+m['origin']
         out.append('| %s | %s | %s%s |'%(k,m['property'],clause,extra))
     return out
 r1,r2,r3,r4,r5,r6,r7,r8,r9=[rows(i) for i in range(1,10)]
